@@ -1,16 +1,7 @@
-mod check;
-mod dna;
-mod engine;
-mod faults;
-mod gen;
-mod items;
-mod known;
-mod mutate;
-mod props;
-mod spec;
-mod types;
 
 use std::time::Instant;
+
+use vcore::{check, props};
 
 fn usage() -> ! {
     eprintln!("usage: vcheck <C01..C20> [--tier quick|thorough] [--replay <file>] | vcheck dump <cfg> <n>");
